@@ -277,3 +277,51 @@
         kani::cover!($v >= 4 || same);
         kani::cover!($v >= 4 || !same);
     }
+
+// @h id=H19.3-k$k prop=C19 rep="k:0-5" quick="0-5" cap=120 mem=12 unwind=6 bounds="every non-object JSON value kind with empty/primitive payload (null, bool b, number n, empty string, empty array) and the empty object"
+    /// metadata that is valid JSON but not an object is refused; an object is accepted
+    #[kani::proof]
+    fn h19_3_metadata_must_be_object_k$k() {
+        let k: u8 = $k;
+        let b: bool = kani::any();
+        let n: u32 = kani::any();
+        let v = match k {
+            0 => JSONValue::Null,
+            1 => JSONValue::Bool(b),
+            2 => JSONValue::Number(serde_json::Number::from(n)),
+            3 => JSONValue::String(String::new()),
+            4 => JSONValue::Array(Vec::new()),
+            _ => JSONValue::Object(JSONMap::new()),
+        };
+        let r = PMTiles::<Cursor<&[u8]>>::parse_meta_data(v);
+        if k == 5 { assert!(r.is_ok()); } else { assert!(r.is_err()); }
+        kani::cover!(k != 2 || n == 7);
+        kani::cover!(k != 1 || b);
+        std::mem::forget(r);
+    }
+
+// @h id=H19.4 prop=C19 tier=quick cap=600 mem=16 unwind=6 uw="FixW=130" stubs="Header::to_writer -> field recorder" bounds="empty archive with internal compression Unknown written to a 200-byte stream; codec factories called with Unknown"
+    /// 'unknown' internal compression is refused when writing (error value, no panic) and by both codec factories
+    #[kani::proof]
+    #[kani::stub(crate::header::Header::to_writer, hdr_to_writer_stub)]
+    fn h19_4_unknown_compression_refused() {
+        let mut p = PMTiles::new(TileType::Png, Compression::None);
+        p.internal_compression = Compression::Unknown;
+        let mut arr = [0x55u8; 200];
+        let mut out = FixW::new(&mut arr, 0);
+        let r = p.to_writer(&mut out);
+        assert!(r.is_err());
+        std::mem::forget(r);
+        let mut sink = [0u8; 8];
+        let mut w2 = FixW::new(&mut sink, 0);
+        let c = compress(Compression::Unknown, &mut w2);
+        assert!(c.is_err());
+        std::mem::forget(c);
+        let src = [0u8; 4];
+        let mut cur = Cursor::new(&src[..]);
+        let d = decompress(Compression::Unknown, &mut cur);
+        assert!(d.is_err());
+        std::mem::forget(d);
+        kani::cover!(true);
+        kani::cover!(unsafe { CAP_SET } == 0);   // no header was produced
+    }
